@@ -1205,6 +1205,14 @@ CMR_ERROR CMRintmatCreateFromSparseStream(CMR* cmr, FILE* stream, CMR_INTMAT** p
     return CMR_ERROR_INPUT;
   }
 
+  if (numRows > INT_MAX || numColumns > INT_MAX
+    || (numColumns == 0 ? numNonzeros > 0 : (numNonzeros / numColumns > numRows
+    || (numNonzeros / numColumns == numRows && numNonzeros % numColumns > 0))))
+  {
+    CMRraiseErrorMessage(cmr, "Invalid number of rows, columns or nonzeros.");
+    return CMR_ERROR_INPUT;
+  }
+
   /* Read all nonzeros. */
 
   IntNonzero* nonzeros = NULL;
@@ -1214,9 +1222,9 @@ CMR_ERROR CMRintmatCreateFromSparseStream(CMR* cmr, FILE* stream, CMR_INTMAT** p
   {
     size_t row;
     size_t column;
-    int value;
-    numRead = fscanf(stream, "%zu %zu %d", &row, &column, &value);
-    if (numRead < 3 || row == 0 || column == 0 || row > numRows || column > numColumns)
+    long long value;
+    numRead = fscanf(stream, "%zu %zu %lld", &row, &column, &value);
+    if (numRead < 3 || row == 0 || column == 0 || row > numRows || column > numColumns || value < INT_MIN || value > INT_MAX)
     {
       CMR_CALL( CMRfreeStackArray(cmr, &nonzeros) );
       if (numRead == 2)
@@ -1312,6 +1320,14 @@ CMR_ERROR CMRchrmatCreateFromSparseStream(CMR* cmr, FILE* stream, CMR_CHRMAT** p
     return CMR_ERROR_INPUT;
   }
 
+  if (numRows > INT_MAX || numColumns > INT_MAX
+    || (numColumns == 0 ? numNonzeros > 0 : (numNonzeros / numColumns > numRows
+    || (numNonzeros / numColumns == numRows && numNonzeros % numColumns > 0))))
+  {
+    CMRraiseErrorMessage(cmr, "Invalid number of rows, columns or nonzeros.");
+    return CMR_ERROR_INPUT;
+  }
+
   /* Read all nonzeros. */
 
   ChrNonzero* nonzeros = NULL;
@@ -1321,9 +1337,9 @@ CMR_ERROR CMRchrmatCreateFromSparseStream(CMR* cmr, FILE* stream, CMR_CHRMAT** p
   {
     size_t row;
     size_t column;
-    int value;
-    numRead = fscanf(stream, "%zu %zu %d", &row, &column, &value);
-    if (numRead < 3 || row == 0 || column == 0 || row > numRows || column > numColumns)
+    long long value;
+    numRead = fscanf(stream, "%zu %zu %lld", &row, &column, &value);
+    if (numRead < 3 || row == 0 || column == 0 || row > numRows || column > numColumns || value < CHAR_MIN || value > CHAR_MAX)
     {
       CMR_CALL( CMRfreeStackArray(cmr, &nonzeros) );
       if (numRead == 2)
@@ -1564,6 +1580,11 @@ CMR_ERROR CMRintmatCreateFromDenseStream(CMR* cmr, FILE* stream, CMR_INTMAT** pr
     CMRraiseErrorMessage(cmr, "Could not read number of rows and columns.");
     return CMR_ERROR_INPUT;
   }
+  if (numRows > INT_MAX || numColumns > INT_MAX)
+  {
+    CMRraiseErrorMessage(cmr, "Invalid number of rows or columns.");
+    return CMR_ERROR_INPUT;
+  }
 
   CMR_CALL( CMRintmatCreate(cmr, presult, numRows, numColumns, 0) );
   CMR_INTMAT* result = *presult;
@@ -1583,10 +1604,12 @@ CMR_ERROR CMRintmatCreateFromDenseStream(CMR* cmr, FILE* stream, CMR_INTMAT** pr
     result->rowSlice[row] = entry;
     for (size_t column = 0; column < numColumns; ++column)
     {
-      int x;
-      numRead = fscanf(stream, "%d", &x);
-      if (numRead < 1)
+      long long x;
+      numRead = fscanf(stream, "%lld", &x);
+      if (numRead < 1 || x < INT_MIN || x > INT_MAX)
       {
+        CMRfreeBlockArray(cmr, &entryColumns);
+        CMRfreeBlockArray(cmr, &entryValues);
         CMRraiseErrorMessage(cmr, "Could not read matrix entry in row %zu and column %zu.", row, column);
         CMRintmatFree(cmr, presult);
         return CMR_ERROR_INPUT;
@@ -1637,6 +1660,11 @@ CMR_ERROR CMRchrmatCreateFromDenseStream(CMR* cmr, FILE* stream, CMR_CHRMAT** pr
     CMRraiseErrorMessage(cmr, "Could not read number of rows and columns.");
     return CMR_ERROR_INPUT;
   }
+  if (numRows > INT_MAX || numColumns > INT_MAX)
+  {
+    CMRraiseErrorMessage(cmr, "Invalid number of rows or columns.");
+    return CMR_ERROR_INPUT;
+  }
 
   CMR_CALL( CMRchrmatCreate(cmr, presult, numRows, numColumns, 0) );
   CMR_CHRMAT* result = *presult;
@@ -1658,8 +1686,10 @@ CMR_ERROR CMRchrmatCreateFromDenseStream(CMR* cmr, FILE* stream, CMR_CHRMAT** pr
     {
       double x;
       numRead = fscanf(stream, "%lf", &x);
-      if (numRead < 1)
+      if (numRead < 1 || x < CHAR_MIN || x > CHAR_MAX || x != (double)(int) x)
       {
+        CMRfreeBlockArray(cmr, &entryColumns);
+        CMRfreeBlockArray(cmr, &entryValues);
         CMRraiseErrorMessage(cmr, "Could not read matrix entry in row %zu and column %zu.", row, column);
         CMRchrmatFree(cmr, presult);
         return CMR_ERROR_INPUT;
